@@ -31,7 +31,10 @@ TOKEN_ALPHABET = (
      'increase formal charge', 'decrease formal charge', '.size', '.charge',
      'is cyclic', 'is aromatic', 'contains', 'of', 'duplicates', '=>',
      '{', '}', '(', ')', ',', '!', '1', '2', '9', '12',
-     'c1', 'c2', 'a1', 'zz9', 'r1', '_', 'x_1']
+     'c1', 'c2', 'a1', 'zz9', 'r1', '_', 'x_1',
+     # comment and string syntax of other languages
+     '//', '// done', '#', '# note', '/*', '*/', '/* x */', ';', '--', '%',
+     '"', "'", '<!--', '\\', '@', '~', '`', '|', '^']
     + ELEMENTS + CLASSES + AROMATIC + SUFFIX + BONDS + CMP[1:] + BOOLS
     + STEREO + ATOM_PREFIX + MOL_PREFIX[0] + MOL_PREFIX[1] + MOL_PREFIX[2])
 
